@@ -137,6 +137,12 @@ Proof.
   split; [|exact H3]. destruct (qc_check cf0 h); congruence.
 Qed.
 
+Lemma high_ok_lru h : high_ok cf0 h = true -> lru <= vw_root (q_view h).
+Proof.
+  unfold high_ok. intros H. apply andb_true_iff in H. destruct H as [H _].
+  apply andb_true_iff in H. destruct H as [_ H]. now apply N.leb_le in H.
+Qed.
+
 Definition VIn (n : net) (k R rd ph b s : N) : Prop := In (mkHV k (mkView R rd ph) b s 0) (map strip (n_votes n)).
 Lemma VIn_raw n k R rd ph b s : VIn n k R rd ph b s <-> exists pr, In (mkHV k (mkView R rd ph) b s pr) (n_votes n).
 Proof.
@@ -199,6 +205,7 @@ Inductive ltrans (n : net) (i : N) (r r' : rstate) : list hvote -> Prop :=
     r_root r' = r_root r -> r_round r' = r_round r -> r_phase r' = r_phase r -> r_props r' = r_props r ->
     r_commit r' = r_commit r -> r_lock r' = Some h -> goodqc n h 4 ->
     (forall l, r_lock r = Some l -> view_less (q_view l) (q_view h) = true) ->
+    lru <= vw_root (q_view h) ->
     ltrans n i r r' []
 | LT_pv m pr :
     r_root r' = r_root r -> r_round r' = r_round r -> r_phase r = 4 -> r_phase r' = 5 -> r_lock r' = r_lock r ->
@@ -275,7 +282,7 @@ Proof.
                    exists q, goodqc (upd n i r' nv) q 6 /\ q_block q = b /\ q_results q = s).
     { intros k0 r0 H0 Hc0. destruct (H5 _ _ _ _ H0 Hc0) as [q [Hq Hr]]. exists q. split; [now apply goodqc_mono|exact Hr]. }
     destruct (get_rep_upd_cases _ _ _ _ _ _ _ Hi Hk) as [[-> ->]|[Hne Hk']]; [|eauto].
-    destruct Ht as [_ Hcm _ _|h _ _ _ _ Hcm _ _ _|m pr _ _ _ _ _ _ Hcm _ _|m pr _ _ _ _ _ _ Hcm _ _|m _ _ _ _ _ Hin Hcm];
+    destruct Ht as [_ Hcm _ _|h _ _ _ _ Hcm _ _ _ _|m pr _ _ _ _ _ _ Hcm _ _|m pr _ _ _ _ _ _ Hcm _ _|m _ _ _ _ _ Hin Hcm];
       try (rewrite Hcm in Hc; eauto).
     injection Hc as <- <-.
     destruct (HP _ _ _ _ _ Hi Hin) as [H1 [H2 [H3 [H4 H5']]]].
@@ -296,6 +303,23 @@ Proof.
     + exfalso. eapply Hmix; eauto.
     + exfalso. eapply (Hmix hv2 hv1); eauto.
     + eapply HU; eauto.
+Qed.
+
+(* root heights and locks never fall below LastRootHeightUpdated (needed for liveness: forwarded locks pass CheckHighQC) *)
+Definition InvR (n : net) : Prop :=
+  forall k r, get_rep n k = Some r -> lru <= r_root r /\ forall l, r_lock r = Some l -> lru <= vw_root (q_view l).
+
+Lemma InvR_step n i r r' nv : InvR n -> get_rep n i = Some r -> ltrans n i r r' nv -> InvR (upd n i r' nv).
+Proof.
+  intros HR Hi Ht k rk Hk.
+  destruct (get_rep_upd_cases _ _ _ _ _ _ _ Hi Hk) as [[-> ->]|[Hne Hk']]; [|eauto].
+  destruct (HR _ _ Hi) as [H1 H2]. pose proof (ltrans_tle _ _ _ _ _ Ht) as Hle.
+  split; [unfold tle3 in Hle; lia|].
+  intros l Hl.
+  destruct Ht as [Hlk _ _ _|h _ _ _ _ _ Hlk _ _ Hlru|m pr _ _ _ _ Hlk _ _ _ _|m pr _ _ _ _ Hlk _ _ _ Hroot|m _ _ _ Hlk _ _ _];
+    rewrite Hlk in Hl; try (apply H2; exact Hl).
+  - injection Hl as <-. exact Hlru.
+  - injection Hl as <-. rewrite Hroot. exact H1.
 Qed.
 
 Hypothesis Hwrap : 2 * ptotal P < two64.
@@ -405,7 +429,7 @@ Lemma step_lock k rk l : get_rep n' k = Some rk -> r_lock rk = Some l -> goodqc 
 Proof.
   intros Hk Hl. apply goodqc_mono.
   destruct (get_rep_upd_cases _ _ _ _ _ _ _ Hi Hk) as [[-> ->]|[Hne Hk']]; [|eapply (I_lock n HI); eauto].
-  destruct Ht as [Hlk _ _ _|h _ _ _ _ _ Hlk Hg _|m pr _ _ _ _ Hlk _ _ _ _|m pr _ _ _ _ Hlk _ _ Hin _|m _ _ _ Hlk _ _ _].
+  destruct Ht as [Hlk _ _ _|h _ _ _ _ _ Hlk Hg _ _|m pr _ _ _ _ Hlk _ _ _ _|m pr _ _ _ _ Hlk _ _ Hin _|m _ _ _ Hlk _ _ _].
   - rewrite Hlk in Hl. eapply (I_lock n HI); eauto.
   - rewrite Hlk in Hl. injection Hl as <-. exact Hg.
   - rewrite Hlk in Hl. eapply (I_lock n HI); eauto.
@@ -421,7 +445,7 @@ Lemma step_L3 k rk R rd b s : get_rep n' k = Some rk -> VIn n' k R rd 6 b s ->
 Proof.
   intros Hk Hv. apply VIn_upd in Hv.
   destruct (get_rep_upd_cases _ _ _ _ _ _ _ Hi Hk) as [[-> ->]|[Hne Hk']].
-  - destruct Ht as [Hlk _ _ _|h _ _ _ _ _ Hlk Hg Hless|m pr _ _ _ _ Hlk _ _ _ _|m pr _ _ Hph _ Hlk _ _ Hin Hroot|m _ _ _ Hlk _ _ _].
+  - destruct Ht as [Hlk _ _ _|h _ _ _ _ _ Hlk Hg Hless _|m pr _ _ _ _ Hlk _ _ _ _|m pr _ _ Hph _ Hlk _ _ Hin Hroot|m _ _ _ Hlk _ _ _].
     + destruct Hv as [[]|Hv]. rewrite Hlk. eapply (I_L3 n HI); eauto.
     + destruct Hv as [[]|Hv]. destruct (I_L3 n HI _ _ _ _ _ _ Hi Hv) as [l [Hl Hc]].
       exists h. split; [exact Hlk|]. left.
@@ -499,6 +523,23 @@ Proof.
   - intros. eapply step_G; eauto.
 Qed.
 End Step.
+
+(* two genuine full certificates of one view and phase carry the same value *)
+Lemma cert_unique n q1 q2 ph : Inv n -> (ph = 4 \/ ph = 6) -> goodqc n q1 ph -> goodqc n q2 ph ->
+  vw_root (q_view q1) = vw_root (q_view q2) -> vw_round (q_view q1) = vw_round (q_view q2) ->
+  q_block q1 = q_block q2 /\ q_results q1 = q_results q2.
+Proof.
+  intros HI Hph H1 H2 Hr Hrd.
+  destruct (quorum2 n (memb (q_signers q1)) (memb (q_signers q2)) HI) as [k [rk [Hk [Hm1 Hm2]]]].
+  - apply full_power. apply H1.
+  - apply full_power. apply H2.
+  - pose proof (goodqc_vote n q1 ph k rk Hph H1 Hm1 Hk) as Hv1.
+    pose proof (goodqc_vote n q2 ph k rk Hph H2 Hm2 Hk) as Hv2.
+    apply VIn_raw in Hv1, Hv2. destruct Hv1 as [p1 Hv1]. destruct Hv2 as [p2 Hv2].
+    rewrite Hr, Hrd in Hv1.
+    pose proof (proj2 (proj2 (proj2 (I_L n HI))) k rk _ _ Hk Hv1 Hv2 eq_refl eq_refl eq_refl) as E.
+    injection E as -> -> _. auto.
+Qed.
 
 (* ---- the final argument *)
 Lemma Inv_agree n i ri j rj v1 v2 : Inv n -> get_rep n i = Some ri -> get_rep n j = Some rj ->
